@@ -154,6 +154,7 @@ func (p *queueProcessor) enqueue(flowName string, apiStream publictypes.APIStrea
 	// Wait until request is processed or TTL expires
 	p.updateMetrics(flowName, apiStream, req, true, false)
 
+	verifhook.Yield("queue.registered-before-wait", req.GetID())
 	verdict := req.Wait()
 	verifhook.Event("queue.verdict", p.name, req.GetID(), fmt.Sprint(verdict), "")
 	if verdict {
